@@ -36,10 +36,17 @@ def body(run):
         model = ik.MODELS[(gi + 1) % 3]
         kshape = rng.choice([(3, 3), (1, 3), (5, 3)])
         with_param = gi % 4 != 3
-        pair = fz.make_pair(run.work, g, rng, smask=fz.src_mask(rng, g.src_shape, rng.choice(['none', 'holes', 'border', 'sparse-block', 'sparse-block'])), tag='c')
+        mkind = rng.choice(['none', 'holes', 'border', 'sparse-block', 'sparse-block'])
         proc = rng.choice(['auto', 'auto', 'src', 'ref'])
+        nblk_target = rng.choice([4, 6, 9, 16])
+        if gi % 4 == 1:
+            # state carried from one block to another shows where blocks differ most: a per-block model, many small blocks, some of them
+            # nearly empty (a handful of valid pixels), large kernel
+            g = synth.aligned_geom(rng, run.scale(40, 56))
+            model, mkind, proc, nblk_target, kshape = 'gain-blk-offset', 'sparse-block', 'auto', rng.choice([16, 32]), rng.choice([(3, 3), (5, 5)])
+        pair = fz.make_pair(run.work, g, rng, smask=fz.src_mask(rng, g.src_shape, mkind), tag='c')
         try:
-            mbm, _nb = fz.pick_block_mem(pair['src_fn'], pair['ref_fn'], proc, rng.choice([4, 6, 9, 16]), kshape)
+            mbm, _nb = fz.pick_block_mem(pair['src_fn'], pair['ref_fn'], proc, nblk_target, kshape)
             kw = dict(model=model, kernel_shape=kshape, proc_crs=proc, max_block_mem=mbm, param=with_param)
             base = fz.fuse(pair['src_fn'], pair['ref_fn'], run.work / 'base.tif', threads=1, **kw)
         except Exception as ex:
@@ -95,9 +102,10 @@ def body(run):
                 desc = dict(desc0, what='stats', threads=threads, schedule_seed=seed)
                 dist['stats'] = dist.get('stats', 0) + 1
                 run.count_case(('stats', gi, seed), True, None)
-                if r['outcome'] != 'ok' or not stats_close(r['stats'], sbase['stats']):
+                # (a parameter image without a single valid pixel makes stats() raise - with every schedule, also single-threaded: same outcome)
+                if r['outcome'] != sbase['outcome'] or (r['outcome'] == 'ok' and not stats_close(r['stats'], sbase['stats'])):
                     run.add_violation('parameter statistics depend on the schedule', desc, expected=sbase['stats'],
-                                      observed=dict(outcome=r['outcome'], stats=r['stats']), signature=dict(kind='sched-output', part='stats'))
+                                      observed=dict(outcome=r['outcome'], stats=r['stats'], traceback=r.get('traceback')), signature=dict(kind='sched-output', part='stats'))
                 for v in ip.lockset_violations(r['rec'], any_lock_ok_for=('stats',))[:1]:
                     run.add_violation(v['why'], desc, observed=v, signature=dict(kind='lockset', dataset=v['dataset']))
                 # both phases (data window, sums) run in one call: tasks of the first pool are window workers
